@@ -169,7 +169,7 @@ fn decl_strategy() -> impl Strategy<Value = Decl> {
     leaf.prop_recursive(2, 24, 8, |inner| proptest::collection::vec(inner, 1..8).prop_map(Decl::Namespace))
 }
 
-fn gen_input(case: &Case, merge: bool, sort: bool) -> Option<(BgInput, String)> {
+pub fn gen_input(case: &Case, merge: bool, sort: bool) -> Option<(BgInput, String)> {
     let Case::Gen { decls, cpp, old_target, overrides, block_attrs, wasm_module, attr_detection, raw_lines, namespaces } = case else { return None };
     let mut r = Render { out: "struct Fwd;\n".into(), n: 0, fn_names: vec![], used_special: BTreeSet::new(), cpp: *cpp };
     for d in decls {
